@@ -243,6 +243,11 @@ func (cr *caseRun) opConnect(short bool, buffered bool) *shClient {
 	}
 	id := map[string]interface{}{"client_id": fmt.Sprintf("k%d", k), "hostname": "h", "feature_negotiation": true,
 		"heartbeat_interval": 60000, "msg_timeout": tmo, "output_buffer_size": -1}
+	if cr.topo {
+		id["topology_region"] = []string{"r1", "r1", "r2", ""}[cr.r.Intn(4)]
+		id["topology_zone"] = []string{"z1", "z2", "z2", ""}[cr.r.Intn(4)]
+		cr.tag(fmt.Sprintf("consumer-topology=%v/%v", id["topology_region"], id["topology_zone"]))
+	}
 	if buffered {
 		id["output_buffer_size"] = 16384
 		id["output_buffer_timeout"] = 25
